@@ -861,8 +861,28 @@ func (a *apiGen) transitions() {
 	}
 	g.Op("call-RemoveWallet", "call RemoveWallet wid:%s pass:%s", w, w)
 	g.Op("res", "res")
-	a.precise = false
 	a.removing[w] = true
+	// deliveries while the wallet is being removed (removal accepted, not yet run), still compared precisely:
+	// the follower no longer counts the wallet as ready; real follower, ledger model and follower skeleton must agree
+	if g.Rng.Intn(2) == 0 {
+		// no new addresses meanwhile (NewAddr selects the wallet first, which a wallet being removed refuses)
+		maxAddr := l.maxAddr
+		l.maxAddr = 0
+		defer func() { l.maxAddr = maxAddr }()
+		for i, n := 0, 1+g.Rng.Intn(3); i < n; i++ {
+			switch g.Rng.Intn(4) {
+			case 0:
+				l.reorgTo(1+g.Rng.Intn(2), 1+g.Rng.Intn(2))
+			case 1:
+				l.recv()
+			default:
+				l.extend()
+			}
+			l.drain()
+		}
+		g.Stats["deliver-removing"]++
+	}
+	a.precise = false
 	g.Engine = "api x"
 	defer func() { g.Engine = "api" }()
 	plain := func(class, f string, args ...interface{}) {
